@@ -49,6 +49,7 @@ func propC02(w *World, r *Run) {
 	ruleServeHTTP(w, r, "C02.d", "C02.d", "C02.d")
 	ruleComposedInMemory(w, r, "C02.e")
 	ruleComposedSQL(w, r, "C02.e")
+	ruleNewKeepsConfig(w, r, "C02.f")
 }
 
 func propC03(w *World, r *Run) {
@@ -62,6 +63,9 @@ func propC03(w *World, r *Run) {
 	ruleLogsFromKeys(w, r, "C03.d")
 	ruleServeHTTP(w, r, "C03.e", "C03.e", "C03.e")
 	ruleEndpointHygiene(w, r, "C03.e")
+	ruleRefusalErrorCarriesNoCosignature(w, r, "C03.b")
+	ruleEndpointErrorBodies(w, r, "C03.e")
+	ruleAdapter(w, r, "C03.f")
 }
 
 func propC04(w *World, r *Run) {
@@ -76,6 +80,8 @@ func propC04(w *World, r *Run) {
 	ruleReadVerbatim(w, r, "C04.d")
 	ruleImmut(w, r, "C04.e", immutCoreFields(w, r, "C04.e", "Witness"))
 	ruleReadAPIAs(w, r, "C04.f")
+	ruleStoredBytesNotRecycled(w, r, "C04.g")
+	ruleClientReadsWholeBody(w, r, "C04.h")
 }
 
 func propC07(w *World, r *Run) {
@@ -109,6 +115,7 @@ func propC08(w *World, r *Run) {
 	ruleNoLeakedTx(w, r, "C08.c")
 	ruleParseBodyTotal(w, r, "C08.d", "C08.d")
 	ruleServeHTTP(w, r, "C08.e", "C08.e", "C08.e")
+	ruleStrictInteger(w, r, "C08.f")
 }
 
 func propC09(w *World, r *Run) {
@@ -121,6 +128,7 @@ func propC09(w *World, r *Run) {
 	ruleSentinelExhaustive(w, r, a, "C09.b")
 	ruleTouchByComparison(w, r, a, "C09.c")
 	ruleNotFoundExact(w, r, "C09.d")
+	ruleParseBodyTotal(w, r, "C09.e", "C09.e")
 }
 
 func propC20(w *World, r *Run) {
@@ -132,6 +140,7 @@ func propC20(w *World, r *Run) {
 	ruleOutcomeCounter(w, r, a, "C20.a")
 	ruleCounterLabel(w, r, a, "C20.b")
 	ruleInitBeforeUse(w, r, "C20.d")
+	ruleLabelArity(w, r, "C20.e")
 }
 
 func init() {
@@ -155,6 +164,7 @@ func propC05(w *World, r *Run) {
 	ruleNoInplace(w, r, a, "C05.g")
 	ruleNoNestedStorage(w, r, a, "C05.h")
 	ruleNotFoundExact(w, r, "C05.i")
+	ruleStoredBytesNotRecycled(w, r, "C05.g")
 }
 
 func propC06(w *World, r *Run) {
@@ -186,6 +196,8 @@ func propC10(w *World, r *Run) {
 	ruleServeHTTP(w, r, "C10.b", "C10.c", "C10.e")
 	ruleEndpointHygiene(w, r, "C10.c")
 	ruleCommitBeforeAck(w, r, "C10.g")
+	ruleDecisionTable(w, r, a, "C10.h")
+	ruleEndpointErrorBodies(w, r, "C10.c")
 	ruleSentinelExhaustive(w, r, a, "C10.a")
 	ruleStrictInteger(w, r, "C10.f")
 	ruleParseBodyTotal(w, r, "C10.f", "C10.f")
@@ -200,6 +212,8 @@ func propC11(w *World, r *Run) {
 	ruleUnmarshalTotal(w, r, "C11.b")
 	ruleStrictInteger(w, r, "C11.c")
 	ruleCapsAndTimeouts(w, r, "C11.f", "C11.f")
+	ruleServeHTTP(w, r, "C11.g", "C11.g", "C11.g")
+	ruleEndpointHygiene(w, r, "C11.g")
 }
 
 func init() {
@@ -213,6 +227,7 @@ func propC13(w *World, r *Run) {
 	ruleFeeder(w, r)
 	ruleAdapter(w, r, "C13.f")
 	ruleNoLeakedTx(w, r, "C13.g")
+	ruleFetchUnderCallersContext(w, r, "C13.h")
 }
 
 func init() {
@@ -227,6 +242,7 @@ func propC15(w *World, r *Run) {
 	ruleDistributor(w, r)
 	ruleImmut(w, r, "C15.a", immutCoreFields(w, r, "C15.a", "Distributor"))
 	ruleDistributorGetsAllLogs(w, r, "C15.f")
+	ruleNoDerefOfFailedResult(w, r, "C15.g", fnDistOnce)
 }
 
 func propC16(w *World, r *Run) {
@@ -279,6 +295,7 @@ func propC14(w *World, r *Run) {
 	ruleCloseAlways(w, r, a, "C14.e")
 	ruleCloseIsRollback(w, r, "C14.e")
 	ruleSumDBConstants(w, r) // tile-derived proofs: constants and coordinate plumbing (reported under C18.* rule ids)
+	ruleReadLimitsConstant(w, r, "C14.f")
 }
 
 func init() {
@@ -297,6 +314,8 @@ func propC17(w *World, r *Run) {
 	ruleOneWitness(w, r, "C17.b")
 	ruleConfigKeying(w, r, "C17.b")
 	ruleNewLogShape(w, r, "C17.c")
+	ruleNewKeepsConfig(w, r, "C17.d")
+	ruleYAMLStrictness(w, r, "C17.a")
 }
 
 func propC18(w *World, r *Run) {
@@ -305,6 +324,8 @@ func propC18(w *World, r *Run) {
 	r.trusted = append(tbCommon, "golang.org/x/mod/sumdb/tlog (reference implementation, pinned)")
 	ruleSumDBConstants(w, r)
 	ruleNoManualEncoding(w, r, "C18.e")
+	ruleReadLimitsConstant(w, r, "C18.f")
+	ruleFeederAs(w, r, "C18.g")
 }
 
 func propC19(w *World, r *Run) {
@@ -318,6 +339,9 @@ func propC19(w *World, r *Run) {
 	ruleServeHTTP(w, r, "C19.d", "C19.d", "C19.d")
 	ruleEndpointHygiene(w, r, "C19.d")
 	ruleLockset(w, r, "C19.i")
+	ruleNoDerefOfFailedResult(w, r, "C19.j", fnDistOnce, fnCGetLatest, "("+pCHTTP+".Witness).Update")
+	ruleLocksReleased(w, r, "C19.k")
+	ruleLabelArity(w, r, "C19.l")
 	ruleCapsAndTimeouts(w, r, "C19.e", "C19.f")
 	ruleNeverGivesUp(w, r, "C19.f")
 	ruleInitBeforeUse(w, r, "C19.g")
